@@ -4,6 +4,7 @@ import (
 	"fmt"
 	"math"
 	"strings"
+	"sync"
 	"time"
 
 	"github.com/ostafen/clover/v2/document"
@@ -174,6 +175,42 @@ func HostileSweep(run *ev.Run, backend string) {
 			in.Close()
 		}
 		run.Sample(map[string]interface{}{"backend": backend, "situation": sit.name, "criteria_shapes": len(crits), "sort_window_shapes": len(shapes)})
+	}
+}
+
+// ConcurrentClose: Close called from several goroutines at once with nothing else running must not panic (the only
+// part of this sweep whose interleaving is left to the Go scheduler: 12 rounds per backend).
+func ConcurrentClose(run *ev.Run, backend string) {
+	for r := 0; r < 12; r++ {
+		in := drv.MustOpen(backend)
+		drv.Exec(in, m.Op{K: "createColl", Coll: "a"})
+		drv.Exec(in, m.Op{K: "insert", Coll: "a", Docs: DefaultDataset()})
+		db := in.DB
+		var wg sync.WaitGroup
+		var mu sync.Mutex
+		panics := []string{}
+		start := make(chan struct{})
+		for g := 0; g < 4; g++ {
+			wg.Add(1)
+			go func() {
+				defer wg.Done()
+				<-start
+				if p := safely(func() { db.Close() }); p != nil {
+					mu.Lock()
+					panics = append(panics, fmt.Sprint(p))
+					mu.Unlock()
+				}
+			}()
+		}
+		close(start)
+		wg.Wait()
+		run.Add("evaluations", 1)
+		run.Distinct("calls", backend+"/concurrent-close")
+		in.Abandon()
+		if len(panics) > 0 {
+			run.Violation("panic|"+backend+"|concurrent-close", fmt.Sprintf("[%s] Close called from 4 goroutines at once panicked: %v", backend, panics), map[string]interface{}{"engine": "hostile", "backend": backend, "call": "4 concurrent Close"})
+			return
+		}
 	}
 }
 
